@@ -114,6 +114,24 @@ Definition drange_1b (T : list Z) (fuel : nat) (a : adjk) (x y : Z) : res (list 
     lookup_all T (rng i0 (Z.to_nat (i1 + 1 - i0)))
   end end end end.
 
+(* clock: self.dt2int.get(date, self.dt2int[self.adjust(date)])  (the default is evaluated eagerly; for a date in the
+   table adjust(date) = date, so this is dt2int[adjust(date)]) *)
+Definition clock (T : list Z) (fuel : nat) (a : adjk) (t : Z) : res Z :=
+  match adjust fuel a t with None => OutOfFuel | Some s =>
+  match dt2int T s with None => KeyError | Some i => Ok i end end.
+(* Calendar.dt_bump with a string of b-periods: for each token  [+-]?<digits>b :
+     if bmp == '+0b': t = adjust(t,'f') elif bmp == '-0b': t = adjust(t,'p');  t = self.add(t, int(bmp[:-1]), adj)
+   a token is (n, z) with z = 1 for the literal '+0b', -1 for '-0b', 0 otherwise *)
+Fixpoint dt_bump_b (T : list Z) (fuel : nat) (a : adjk) (t : Z) (toks : list (Z * Z)) : res Z :=
+  match toks with
+  | [] => Ok t
+  | (n, z) :: r =>
+      match (if z =? 1 then adjust_f fuel t else if z =? -1 then adjust_p fuel t else Some t) with
+      | None => OutOfFuel
+      | Some t' => match add T fuel a t' n with Ok t2 => dt_bump_b T fuel a t2 r | e => e end
+      end
+  end.
+
 (* ---- SPEC (the property sentence): r is the n-th business day counted from s ---- *)
 Definition nth_bday (s n r : Z) : Prop :=
   (n = 0 /\ r = s) \/
